@@ -81,6 +81,24 @@ def _html_chunk(vecs):
     return [('COUNT', npos)] + bad
 
 
+INCLUDE = '@include x;'
+
+
+def _with_name_only_item(v):
+    """the stylesheet with a statement that has a name only (@include x;) written at the start of the first rule that has a direct
+    declaration: it is listed as a property with an empty value and the declaration after it starts where it ends"""
+    for r in v['rules']:
+        if r['s'] >= 0 and r['props']:
+            bs, n = r['bs'], len(INCLUDE)
+            sh = lambda x: x + n if x >= bs else x
+            props = [{'name': (bs, bs + n - 1), 'value': (bs + n - 1, bs + n - 1), 'value_tokens': [], 'before': bs, 'after': bs + n}]
+            for q in r['props']:
+                props.append({'name': tuple(sh(x) for x in q['name']), 'value': tuple(sh(x) for x in q['value']),
+                              'value_tokens': [tuple(sh(y) for y in x) for x in q['tokens']], 'before': sh(q['before']), 'after': sh(q['after'])})
+            return v['doc'][:bs] + INCLUDE + v['doc'][bs:], bs + 3, {'start': r['s'], 'end': r['e'] + n, 'body_start': bs, 'body_end': r['be'] + n, 'properties': props}
+    return None
+
+
 def _css_chunk(vecs):
     from emmet.action_utils import get_css_section, select_item_css
     bad = []
@@ -89,6 +107,20 @@ def _css_chunk(vecs):
         doc = v['doc']
         flags = {'semicolon_in_parentheses': bool(v['f16'])}
         case0 = {'doc': doc, 'flags': flags}
+        if not v['f16']:
+            alt = _with_name_only_item(v)
+            if alt:
+                doc2, pos2, exp2 = alt
+                try:
+                    s2 = get_css_section(doc2, pos2, True)
+                    g2 = None if s2 is None else {'start': s2.start, 'end': s2.end, 'body_start': s2.body_start, 'body_end': s2.body_end,
+                                                   'properties': [{'name': tuple(q.name), 'value': tuple(q.value), 'value_tokens': [tuple(x) for x in q.value_tokens],
+                                                                   'before': q.before, 'after': q.after} for q in (s2.properties or [])]}
+                    npos += 1
+                    if g2 != exp2:
+                        bad.append(('css-section properties', {'doc': doc2, 'flags': flags, 'pos': pos2, 'expected': exp2, 'actual': g2, 'variant': 'name-only item'}))
+                except Exception as ex:
+                    bad.append(('action helper raised', {'doc': doc2, 'flags': flags, 'exception': type(ex).__name__, 'site': common.innermost_emmet_frame(ex)}))
         try:
             for pos, at in enumerate(v['at']):
                 if SKIP(doc, pos):
